@@ -310,14 +310,16 @@ class Compiler:
             return None
 
         indexes = []
-        names = {target.name: index for index, target in enumerate(targets)}
+        # Only the targets appearing in the SELECT targets list can be
+        # referenced, not the invisible ones added for other clauses.
+        names = {target.name: index for index, target in enumerate(targets) if target.name is not None}
 
         for column in pivot_by.columns:
 
             # Process target references by index.
             if isinstance(column, int):
                 index = column - 1
-                if not 0 <= index < len(targets):
+                if not 0 <= index < len(names):
                     raise CompilationError(f'invalid PIVOT BY column index {column}')
                 indexes.append(index)
                 continue
